@@ -279,27 +279,36 @@ class UndefinedInitialNumericRemover(engines.engine.Engine, CompilerMixin):
                         if fluent_exp.fluent() in is_value_defined_fluents:
                             undef_fluent_exps.add(fluent_exp)
 
-                # fluents that are the target of some effect of this action
-                affected_undef_fluent_exps = set()
-                for eff in action.effects:
-                    if eff.fluent.fluent() in is_value_defined_fluents:
-                        affected_undef_fluent_exps.add(eff.fluent)
+                # effects of this action whose target is a formerly-undefined fluent
+                affecting_effects = [
+                    eff
+                    for eff in action.effects
+                    if eff.fluent.fluent() in is_value_defined_fluents
+                ]
 
                 for fluent_exp in undef_fluent_exps:
                     action.add_precondition(
                         is_value_defined_fluents[fluent_exp.fluent()](*fluent_exp.args)
                     )
 
-                for fluent_exp in affected_undef_fluent_exps:
+                added_trackers = set()
+                for eff in affecting_effects:
+                    fluent_exp = eff.fluent
                     # if this ground instance was already read above (increase/decrease
                     # effects always are), its tracker is already a precondition and is
-                    # therefore already guaranteed to be True; no need to set it again
-                    if fluent_exp not in undef_fluent_exps:
+                    # therefore already guaranteed to be True; no need to set it again.
+                    # Otherwise the tracker becomes True exactly when the assignment
+                    # happens: same condition and same quantified variables
+                    key = (fluent_exp, eff.condition, eff.forall)
+                    if fluent_exp not in undef_fluent_exps and key not in added_trackers:
+                        added_trackers.add(key)
                         action.add_effect(
                             is_value_defined_fluents[fluent_exp.fluent()](
                                 *fluent_exp.args
                             ),
                             True,
+                            eff.condition,
+                            eff.forall,
                         )
 
             elif isinstance(action, DurativeAction):
@@ -310,8 +319,8 @@ class UndefinedInitialNumericRemover(engines.engine.Engine, CompilerMixin):
                 for timeinterval, conditions in action.conditions.items():
                     timing_to_expressions[timeinterval.lower] += conditions
 
-                affected_undef_fluent_exps_map: Dict[Timing, Set[FNode]] = defaultdict(
-                    set
+                affecting_effects_map: Dict[Timing, List["up.model.Effect"]] = (
+                    defaultdict(list)
                 )
                 for timing, effects in action.effects.items():
                     timing_to_expressions[timing] += [eff.value for eff in effects]
@@ -321,8 +330,8 @@ class UndefinedInitialNumericRemover(engines.engine.Engine, CompilerMixin):
                         if eff.is_increase() or eff.is_decrease()
                     ]
                     timing_to_expressions[timing] += [eff.condition for eff in effects]
-                    affected_undef_fluent_exps_map[timing].update(
-                        eff.fluent
+                    affecting_effects_map[timing].extend(
+                        eff
                         for eff in effects
                         if eff.fluent.fluent() in is_value_defined_fluents
                     )
@@ -350,19 +359,27 @@ class UndefinedInitialNumericRemover(engines.engine.Engine, CompilerMixin):
                             ),
                         )
 
-                for timing, fluent_exps in affected_undef_fluent_exps_map.items():
-                    for fluent_exp in fluent_exps:
+                for timing, affecting_effects in affecting_effects_map.items():
+                    added_trackers = set()
+                    for eff in affecting_effects:
+                        fluent_exp = eff.fluent
                         # see the InstantaneousAction case above: skip if already read
                         # (and thus already required to be defined) at this same timing
-                        if fluent_exp not in timing_to_undef_fluent_exps.get(
-                            timing, set()
+                        key = (fluent_exp, eff.condition, eff.forall)
+                        if (
+                            fluent_exp
+                            not in timing_to_undef_fluent_exps.get(timing, set())
+                            and key not in added_trackers
                         ):
+                            added_trackers.add(key)
                             action.add_effect(
                                 timing,
                                 is_value_defined_fluents[fluent_exp.fluent()](
                                     *fluent_exp.args
                                 ),
                                 True,
+                                eff.condition,
+                                eff.forall,
                             )
 
     def _compile_goals(
@@ -392,19 +409,17 @@ class UndefinedInitialNumericRemover(engines.engine.Engine, CompilerMixin):
         for timeinterval, goals in problem.timed_goals.items():
             timing_to_expressions[timeinterval.lower].extend(goals)
 
-        affected_undef_fluent_exps: Dict[Timing, Set[FNode]] = defaultdict(set)
+        affecting_effects_map: Dict[Timing, List["up.model.Effect"]] = defaultdict(
+            list
+        )
         for timing, effects in problem.timed_effects.items():
             for eff in effects:
                 timing_to_expressions[timing].append(eff.value)
                 timing_to_expressions[timing].append(eff.condition)
                 if eff.is_increase() or eff.is_decrease():
                     timing_to_expressions[timing].append(eff.fluent)
-
-                affected_undef_fluent_exps[timing].update(
-                    eff.fluent
-                    for eff in effects
-                    if eff.fluent.fluent() in is_value_defined_fluents
-                )
+                if eff.fluent.fluent() in is_value_defined_fluents:
+                    affecting_effects_map[timing].append(eff)
 
         timing_to_undef_fluent_exps: Dict[Timing, Set[FNode]] = defaultdict(set)
         for timing, expressions in timing_to_expressions.items():
@@ -420,13 +435,22 @@ class UndefinedInitialNumericRemover(engines.engine.Engine, CompilerMixin):
                     is_value_defined_fluents[fluent_exp.fluent()](*fluent_exp.args),
                 )
 
-        for timing, fluent_exps in affected_undef_fluent_exps.items():
-            for fluent_exp in fluent_exps:
-                if fluent_exp not in timing_to_undef_fluent_exps.get(timing, set()):
+        for timing, affecting_effects in affecting_effects_map.items():
+            added_trackers = set()
+            for eff in affecting_effects:
+                fluent_exp = eff.fluent
+                key = (fluent_exp, eff.condition, eff.forall)
+                if (
+                    fluent_exp not in timing_to_undef_fluent_exps.get(timing, set())
+                    and key not in added_trackers
+                ):
+                    added_trackers.add(key)
                     problem.add_timed_effect(
                         timing,
                         is_value_defined_fluents[fluent_exp.fluent()](*fluent_exp.args),
                         True,
+                        eff.condition,
+                        eff.forall,
                     )
 
     def _compile_quality_metrics(
